@@ -127,7 +127,7 @@ Section HofMono.
   Proof.
     intros f two l; induction l as [|x l IH]; intros i st r st' H; cbn [map_loop] in H.
     - inversion H; subst; apply store_le_refl.
-    - destruct (call VNull f (cb_args two x i) st) as [o st1] eqn:E. apply call_mono in E.
+    - destruct (call f f (cb_args two x i) st) as [o st1] eqn:E. apply call_mono in E.
       destruct o; try (inversion H; subst; exact E).
       destruct (map_loop call f two l (S i) st1) as [o2 st2] eqn:E2. apply IH in E2.
       assert (store_le st st2) by (eapply store_le_trans; eauto).
@@ -138,7 +138,7 @@ Section HofMono.
   Proof.
     intros f two l; induction l as [|x l IH]; intros i st r st' H; cbn [filter_loop] in H.
     - inversion H; subst; apply store_le_refl.
-    - destruct (call VNull f (cb_args two x i) st) as [o st1] eqn:E. apply call_mono in E.
+    - destruct (call f f (cb_args two x i) st) as [o st1] eqn:E. apply call_mono in E.
       destruct o; try (inversion H; subst; exact E).
       destruct (as_bool a); try (inversion H; subst; exact E).
       destruct (filter_loop call f two l (S i) st1) as [o2 st2] eqn:E2. apply IH in E2.
@@ -150,7 +150,7 @@ Section HofMono.
   Proof.
     intros f three l; induction l as [|x l IH]; intros i acc st r st' H; cbn [reduce_loop] in H.
     - inversion H; subst; apply store_le_refl.
-    - destruct (call VNull f _ st) as [o st1] eqn:E. apply call_mono in E.
+    - destruct (call f f _ st) as [o st1] eqn:E. apply call_mono in E.
       destruct o; try (inversion H; subst; exact E).
       apply IH in H. eapply store_le_trans; eauto.
   Qed.
@@ -159,7 +159,7 @@ Section HofMono.
   Proof.
     intros f two l; induction l as [|x l IH]; intros i st r st' H; cbn [every_loop] in H.
     - inversion H; subst; apply store_le_refl.
-    - destruct (call VNull f (cb_args two x i) st) as [o st1] eqn:E. apply call_mono in E.
+    - destruct (call f f (cb_args two x i) st) as [o st1] eqn:E. apply call_mono in E.
       destruct o; try (inversion H; subst; exact E).
       destruct (as_bool a) as [[|]| | | |]; try (inversion H; subst; exact E).
       apply IH in H. eapply store_le_trans; eauto.
@@ -169,7 +169,7 @@ Section HofMono.
   Proof.
     intros f two l; induction l as [|x l IH]; intros i st r st' H; cbn [some_loop] in H.
     - inversion H; subst; apply store_le_refl.
-    - destruct (call VNull f (cb_args two x i) st) as [o st1] eqn:E. apply call_mono in E.
+    - destruct (call f f (cb_args two x i) st) as [o st1] eqn:E. apply call_mono in E.
       destruct o; try (inversion H; subst; exact E).
       destruct (as_bool a) as [[|]| | | |]; try (inversion H; subst; exact E).
       apply IH in H. eapply store_le_trans; eauto.
